@@ -33,3 +33,41 @@ for _e, _n, _q, _t in (('h_subpacket_decode', 'subpacket', range(0, 9), range(0,
       desc='arbitrary bytes into %s: no out-of-bounds access, invalid iterator range, assert/abort, non-standard exception, non-termination' % _e[2:],
       symbolic='every byte string of the slice length', bounds='input length %d..%d (quick) / ..%d (thorough), one query per length; default configuration macros' % (_q[0], _q[-1], _t[-1]),
       slices=[{'H_LEN': n} for n in _q], tiers={'thorough': {'slices': [{'H_LEN': n} for n in _t]}})
+
+# ------------------------------------------------------------------ C09 (arithmetic primitives)
+COIN = {'tmcg_mpz_srandomm': 'vfstub_randomm', 'tmcg_mpz_ssrandomm': 'vfstub_randomm', 'tmcg_mpz_wrandomm': 'vfstub_randomm',
+        'tmcg_mpz_srandomb': 'vfstub_randomb', 'tmcg_mpz_ssrandomb': 'vfstub_randomb', 'tmcg_mpz_wrandomb': 'vfstub_randomb'}
+def C09(name, entry, desc, symbolic, tu=('mpz_spowm.cc',), W=5, WT=7, fp=4, fpT=6, pslice=True, **kw):
+    qs = [{'H_P': p} for p in range(3, 1 << W, 2)] if pslice else None
+    ts = [{'H_P': p} for p in range(3, 1 << WT, 2)] if pslice else None
+    H(id='C09_' + name, property='C09', src='C09_arith.cc', entry=entry, tu=list(tu), unwind=12, replace=COIN,
+      defines={'VF_BITS': 2 * W + 4, 'H_W': W, 'H_MAXDRAWS': 3}, config={'TMCG_MAX_FPOWM_T': fp}, desc=desc, symbolic=symbolic, slices=qs,
+      bounds='every odd modulus p < 2^%d (quick) / 2^%d (thorough), one query per p (p concrete in a query, all other inputs symbolic); TMCG_MAX_FPOWM_T=%d/%d; GMP model (2W+4)-bit; rejection-loop draws <= 3 (quick) / 4 (thorough)' % (W, WT, fp, fpT),
+      assumptions=['coin stubs: tmcg_mpz_*random{m,b} return an arbitrary value in their documented range (at most 3/4 draws per harness)'],
+      tiers={'thorough': {'defines': {'VF_BITS': 2 * WT + 4, 'H_W': WT, 'H_MAXDRAWS': 4}, 'config': {'TMCG_MAX_FPOWM_T': fpT}, 'timeout': 3000, 'slices': ts}}, **kw)
+C09('spowm', 'h_spowm', 'tmcg_mpz_spowm == plain modular exponentiation, exponent of either sign and zero', 'odd modulus p, unit base m, exponent x: all values')
+C09('spowm_kf1', 'h_spowm_kf1', 'known finding KF1: positive exponent divisible by the modulus', 'm, x = k*p', W=4, WT=5)
+C09('spowm_even', 'h_spowm_even', 'even modulus refused by standard exception', 'even p, m, x all values', pslice=False)
+C09('spowm_baseblind', 'h_spowm_baseblind', 'Chaum-blinded power == plain power for every blinding value', 'p, m, x and the blinding coins')
+C09('spowm_kocher', 'h_spowm_kocher', 'Kocher-blinded init/calc/calc == plain power incl. seed update', 'p, m, m2, x >= 0 and the blinding coins')
+C09('fpowm', 'h_fpowm', 'table power == plain power up to the table limit, refused one bit beyond', 'p, m, x with |x| < 2^(T+1)')
+C09('fspowm', 'h_fspowm', 'constant-time table power == plain power up to the table limit, refused one bit beyond', 'p, m, x with |x| < 2^(T+1)')
+C09('fpowm_ui', 'h_fpowm_ui', 'table power (ui) == plain power up to the table limit, refused beyond', 'p, m, x < 2^(T+1)')
+C09('fpowm_wrongbase', 'h_fpowm_wrongbase', 'table powers refuse a base other than table[0]', 'p, m, other base in [-2,2^W), variant')
+def primes_below(n): return [p for p in range(3, n) if all(p % d for d in range(2, int(p ** .5) + 1))]
+def C09S(name, entry, desc, W, WT, pairs=False, **kw):
+    if pairs:
+        mk = lambda lim: [{'H_P': p, 'H_Q': q, 'VF_BITS': 2 * (p * q).bit_length() + 2} for p in primes_below(lim) for q in primes_below(lim) if p < q and p * q < 2 * lim * 2]
+    else:
+        mk = lambda lim: [{'H_P': p} for p in primes_below(lim)]
+    H(id='C09_' + name, property='C09', src='C09_arith.cc', entry=entry, tu=['mpz_sqrtm.cc'], unwind=12, replace=COIN,
+      defines={'VF_BITS': 2 * WT + 4, 'H_W': W, 'H_MAXDRAWS': 3}, desc=desc, symbolic='the quadratic residue a = y^2 for an arbitrary unit y; coins of the randomized variants',
+      slices=mk(1 << W), bounds='every prime p < 2^%d (quick) / 2^%d (thorough)%s, one query per modulus; draws <= 3' % (W, WT, ' and products of two of them' if pairs else ''),
+      assumptions=['coin stubs: tmcg_mpz_*random{m,b} return an arbitrary value in their documented range (at most 3 draws per harness)'],
+      tiers={'thorough': {'slices': mk(1 << WT), 'timeout': 3000}}, **kw)
+C09S('sqrtmp', 'h_sqrtmp', 'tmcg_mpz_sqrtmp: root^2 == a for every quadratic residue of every prime (p mod 8 = 1,3,5,7 incl. high 2-adic order 17, 97, 113)', 5, 7)
+C09S('sqrtmp_r', 'h_sqrtmp_r', 'tmcg_mpz_sqrtmp_r (randomized): root^2 == a for every quadratic residue and every non-residue draw', 5, 7)
+C09S('sqrtmp_zero', 'h_sqrtmp_zero', 'a = 0 refused', 4, 5)
+C09S('sqrtmn', 'h_sqrtmn', 'tmcg_mpz_sqrtmn / _r: root^2 == a mod pq', 4, 5, pairs=True)
+C09S('sqrtmn_all', 'h_sqrtmn_all', 'tmcg_mpz_sqrtmn_all / _r_all: four distinct roots, each squares to a', 4, 5, pairs=True)
+C09S('qrmn_p', 'h_qrmn_p', 'tmcg_mpz_qrmn_p == existence of a square root mod pq', 4, 5, pairs=True)
